@@ -133,8 +133,8 @@ def check_tuple(v, ra, obj=None):
     return out
 
 
-def check_string(v, ra, fancy, nd, tol=None, via_copy=False):
-    a = Angle(v)
+def check_string(v, ra, fancy, nd, tol=None, via_copy=False, obj=None):
+    a = Angle(v) if obj is None else obj
     if tol is not None:
         # history: the comparison tolerance of the object was changed before printing
         a.set_tolerance(tol)
@@ -298,7 +298,8 @@ def run_bfs_states(x0, ctx):
 # -- one Angle object over a history of observers and in-place mutators ----------------------------
 
 OH_STARTS = [-87.32, -1e-20, -5e-324, 359.99999999999994, -0.5 / 3600.0, 15.25, -359.9999999999723, 180.0]
-OH_OPS = [("dms_tuple",), ("ra_tuple",), ("dms_str",), ("ra_str",), ("to_positive",), ("set", 272.68),
+OH_OPS = [("dms_tuple",), ("ra_tuple",), ("dms_str",), ("ra_str",), ("dms_str_colon5",), ("ra_str_fancy0",),
+          ("to_positive",), ("set", 272.68),
           ("set", -1e-15), ("set_ra", 23.99999999999), ("set_radians", -1e-18), ("set_tolerance", 0.0)]
 
 
@@ -308,7 +309,11 @@ def _oh_views(a):
 
 def _oh_apply(a, op):
     k = op[0]
-    if k == "dms_str":
+    if k == "dms_str_colon5":
+        a.dms_str(False, 5)
+    elif k == "ra_str_fancy0":
+        a.ra_str(True, 0)
+    elif k == "dms_str":
         a.dms_str(True, 2)
     elif k == "ra_str":
         a.ra_str(False, 2)
@@ -344,6 +349,12 @@ def check_object_history(case):
                 out += [("history_" + s_, "after %r on Angle(%r): %s" % (case["history"][:k + 1], case["start"], m))
                         for s_, m in check_tuple(v, ra, obj=a) if s_ in ("tuple", "tuple_range", "tuple_recombine",
                                                                         "tuple_sign")]
+                # the strings of the object itself, judged absolutely (grammar, sign, read-back): state shared by
+                # all objects would mislead a fresh object of the same value in the same way
+                if -360.0 < v < 360.0:
+                    for fancy, nd in ((True, 3), (False, 0)):
+                        out += [("history_" + s_, "after %r on Angle(%r): %s" % (case["history"][:k + 1], case["start"], m))
+                                for s_, m in check_string(v, ra, fancy, nd, obj=a)]
         except Exception as ex:
             out.append(("history_exception", "history %r on Angle(%r) raised %r" % (case["history"][:k + 1],
                                                                                    case["start"], ex)))
